@@ -24,11 +24,11 @@ Definition boot_reply (d : string * N) (efi pers : bool) : reply :=
 
 Definition chk_boot (x : (string * N) * bool * bool) : bool :=
   let '(d, efi, pers) := x in
-  exch_eqb (one_exchange "set_boot_options" (boot_args d efi pers) (RBytes [0]))
+  exch_ok "set_boot_options" (boot_args d efi pers) (RBytes [0])
            (mkReq 0 8 0 (5 :: boot_data (snd d) efi pers)) (Ok PNone)
-  && exch_eqb (one_exchange "get_boot_device" [] (boot_reply d efi pers)) (mkReq 0 9 0 [5; 0; 0]) (Ok (PStr (fst d)))
-  && exch_eqb (one_exchange "get_boot_mode" [] (boot_reply d efi pers)) (mkReq 0 9 0 [5; 0; 0]) (Ok (PStr (mode_name efi)))
-  && exch_eqb (one_exchange "get_boot_persistency" [] (boot_reply d efi pers)) (mkReq 0 9 0 [5; 0; 0]) (Ok (PBool pers)).
+  && exch_ok "get_boot_device" [] (boot_reply d efi pers) (mkReq 0 9 0 [5; 0; 0]) (Ok (PStr (fst d)))
+  && exch_ok "get_boot_mode" [] (boot_reply d efi pers) (mkReq 0 9 0 [5; 0; 0]) (Ok (PStr (mode_name efi)))
+  && exch_ok "get_boot_persistency" [] (boot_reply d efi pers) (mkReq 0 9 0 [5; 0; 0]) (Ok (PBool pers)).
 
 Definition boot_dom : list ((string * N) * bool * bool) :=
   flat_map (fun d => [(d, false, false); (d, false, true); (d, true, false); (d, true, true)]) boot_devices.
@@ -56,7 +56,7 @@ Opaque one_exchange call bmc_handle.
 Definition boot_state (s : store) (d : string * N) (efi pers : bool) : store :=
   put (put s (K_BOOTINV, 5, 0) [0]) (K_BOOT, 5, 0) (boot_data (snd d) efi pers).
 
-Lemma write_read_boot s d efi pers : List.In d boot_devices ->
+Lemma write_read_boot s d efi pers : is_supported "set_boot_options" = true -> is_supported "get_boot_device" = true -> is_supported "get_boot_mode" = true -> is_supported "get_boot_persistency" = true -> List.In d boot_devices ->
   let s1 := boot_state s d efi pers in
   exists r1 r2 r3 r4,
     call "set_boot_options" (boot_args d efi pers) s = (r1, s1) /\ same r1 (Ok PNone) /\
@@ -64,23 +64,23 @@ Lemma write_read_boot s d efi pers : List.In d boot_devices ->
     call "get_boot_mode" [] s1 = (r3, s1) /\ same r3 (Ok (PStr (mode_name efi))) /\
     call "get_boot_persistency" [] s1 = (r4, s1) /\ same r4 (Ok (PBool pers)).
 Proof.
-  intros Hd s1.
+  intros S1 S2 S3 S4 Hd s1.
   pose proof (table1 chk_boot boot_dom boot_table (d, efi, pers) (boot_dom_in d efi pers Hd)) as C.
   unfold chk_boot in C.
   apply andb_true_iff in C as [C R3]. apply andb_true_iff in C as [C R2]. apply andb_true_iff in C as [W R1].
   assert (BR : bmc_handle s1 (mkReq 0 9 0 [5; 0; 0]) = (s1, boot_reply d efi pers)).
   { rewrite bmc_get_boot5. unfold s1, boot_state. rewrite get_put_same.
     rewrite get_put_other by discriminate. rewrite get_put_same. reflexivity. }
-  destruct (write_then_read "set_boot_options" "get_boot_device" _ _ s s1 _ _ _ _ _ _ W
+  destruct (write_then_read "set_boot_options" "get_boot_device" _ _ s s1 _ _ _ _ _ _ S1 S2 W
               (bmc_set_boot5 s _ _) R1 BR) as (r1 & r2 & H1 & H2 & H3 & H4).
-  destruct (read_only "get_boot_mode" _ s1 _ _ _ R2 BR) as (r3 & H5 & H6).
-  destruct (read_only "get_boot_persistency" _ s1 _ _ _ R3 BR) as (r4 & H7 & H8).
+  destruct (read_only "get_boot_mode" _ s1 _ _ _ S3 R2 BR) as (r3 & H5 & H6).
+  destruct (read_only "get_boot_persistency" _ s1 _ _ _ S4 R3 BR) as (r4 & H7 & H8).
   exists r1, r2, r3, r4. auto 10.
 Qed.
 
 (* ---- chassis control: the request that reaches the BMC is Chassis Control(option) ---- *)
 Definition chk_control (o : N) : bool :=
-  exch_eqb (one_exchange "chassis_control" [arg "option" o] (RBytes [0])) (mkReq 0 2 0 [o]) (Ok PNone).
+  exch_ok "chassis_control" [arg "option" o] (RBytes [0]) (mkReq 0 2 0 [o]) (Ok PNone).
 Lemma control_table : forallb chk_control (nrange 16) = true.
 Proof. vm_cast_no_check (eq_refl true). Qed.
 
@@ -88,26 +88,26 @@ Definition wrappers : list (string * N) := [
   ("chassis_control_power_down", 0); ("chassis_control_power_up", 1); ("chassis_control_power_cycle", 2);
   ("chassis_control_hard_reset", 3); ("chassis_control_diagnostic_interrupt", 4); ("chassis_control_soft_shutdown", 5)].
 Definition chk_wrapper (w : string * N) : bool :=
-  exch_eqb (one_exchange (fst w) [] (RBytes [0])) (mkReq 0 2 0 [snd w]) (Ok PNone).
+  exch_ok (fst w) [] (RBytes [0]) (mkReq 0 2 0 [snd w]) (Ok PNone).
 Lemma wrapper_table : forallb chk_wrapper wrappers = true.
 Proof. vm_cast_no_check (eq_refl true). Qed.
 
 (* whenever the reference BMC accepts Chassis Control(o) in state s, the call returns None and
    leaves the BMC in exactly the state of that transition *)
-Lemma write_chassis_control s o s' : o < 16 ->
+Lemma write_chassis_control s o s' : is_supported "chassis_control" = true -> o < 16 ->
   bmc_handle s (mkReq 0 2 0 [o]) = (s', RBytes [0]) ->
   exists r, call "chassis_control" [arg "option" o] s = (r, s') /\ same r (Ok PNone).
 Proof.
-  intros Ho B. pose proof (table1 chk_control (nrange 16) control_table o (nrange_in 16 o Ho)) as C.
-  exact (write_only "chassis_control" _ s s' _ _ _ C B).
+  intros Sw Ho B. pose proof (table1 chk_control (nrange 16) control_table o (nrange_in 16 o Ho)) as C.
+  exact (write_only "chassis_control" _ s s' _ _ _ Sw C B).
 Qed.
 
-Lemma write_chassis_wrapper s w s' : List.In w wrappers ->
+Lemma write_chassis_wrapper s w s' : is_supported (fst w) = true -> List.In w wrappers ->
   bmc_handle s (mkReq 0 2 0 [snd w]) = (s', RBytes [0]) ->
   exists r, call (fst w) [] s = (r, s') /\ same r (Ok PNone).
 Proof.
-  intros Hw B. pose proof (table1 chk_wrapper wrappers wrapper_table w Hw) as C.
-  exact (write_only (fst w) _ s s' _ _ _ C B).
+  intros Sw Hw B. pose proof (table1 chk_wrapper wrappers wrapper_table w Hw) as C.
+  exact (write_only (fst w) _ s s' _ _ _ Sw C B).
 Qed.
 
 (* what Chassis Control does to the reference BMC (power up shown; by byte position) *)
